@@ -794,12 +794,100 @@ class PubSubRun:
                 res.add("C14", "unsound_notice" if not isl else "logger_skipped",
                         f"message type={h.msg_type} tag={tag}: {extra[mid]} notice(s) name module {mid} which was "
                         f"{'a waited-for logger' if isl else 'not an undeliverable subscriber'}")
+        self.oracle_c14_manager_originated(model, mon, sub_since)
         # a logger that was not writable must have been waited for
         lw = {(c) for (_s, c) in net.logger_waits}
         for d in model.deliveries:
             for c in d.logger_waited:
                 if c not in lw:
                     res.add("C14", "logger_not_waited", f"logger conn {c} was not writable and no wait was seen")
+
+
+def _oracle_c14_manager_originated(self, model, mon, sub_since):
+    """Messages the manager originates itself (CLIENT_CLOSED, CLIENT_INFO, ACTIVE_CLIENTS, TIMING, TRAFFIC,
+    acknowledgement copies) are reportable like any other when they cannot be handed to a subscriber.
+    Checked per round, and only for rounds in which the manager refreshed its writable snapshot (in other rounds
+    it works from a stale snapshot, which no statement covers)."""
+    res = self.res
+    net = self.w.net
+    exempt = set(C.LOG_TYPES) | {C.MT_FAILED_MESSAGE}
+    expected = defaultdict(Counter)     # round -> Counter((type, module id))
+    observed = defaultdict(Counter)
+    blocked_of = {}
+    for ev in net.events:
+        if ev[1] == "ROUND_WRITABLE":
+            blocked_of[ev[2]] = set(ev[3])
+    for wfr in mon.sock.peer.tx_frames:
+        h = wfr.hdr
+        if wfr.seq <= sub_since or wfr.round not in net.probe_rounds or wfr.seq < net.probe_seq.get(wfr.round, 0):
+            continue            # (before the refresh the manager still works from the previous round's snapshot)
+        if h.src_mod_id != 0 or h.send_time >= TAG_BASE:
+            continue
+        if h.msg_type == C.MT_FAILED_MESSAGE:
+            if len(wfr.payload) >= 64:
+                fm = C.unpack_failed_message(wfr.payload)
+                if fm.hdr.send_time < TAG_BASE and fm.hdr.src_mod_id == 0:
+                    observed[wfr.round][(fm.hdr.msg_type, fm.dest_mod_id)] += 1
+            continue
+        if h.msg_type in exempt or (h.msg_type == C.MT_ACKNOWLEDGE and h.num_data_bytes == 0):
+            continue
+        # M: a manager-originated, reportable message; who was subscribed and could not take it?
+        blocked = blocked_of.get(wfr.round, set())
+        for conn in model.conns:
+            if conn == mon.conn:
+                continue
+            st = model.state_at(conn, wfr.seq)
+            if st is None:
+                continue
+            alive, subs, mod_id, is_logger = st
+            if not alive or is_logger:
+                continue
+            if not (h.msg_type in subs or ALL in subs):
+                continue
+            if conn in blocked:
+                expected[wfr.round][(h.msg_type, mod_id)] += 1
+    # write failures while a manager-originated, reportable frame was being written
+    round_of_seq = []
+    for ev in net.events:
+        if ev[1] == "MGR_SELECT":
+            round_of_seq.append((ev[0], ev[2]))
+    import bisect
+    seqs = [x[0] for x in round_of_seq]
+    for (s_, conn, _k, _e, mt, tag) in net.wfails:
+        if mt is None or mt in exempt or (tag is not None and tag >= TAG_BASE) or s_ <= sub_since:
+            continue
+        i = bisect.bisect_right(seqs, s_) - 1
+        if i < 0:
+            continue
+        rnd = round_of_seq[i][1]
+        if rnd not in net.probe_rounds or s_ < net.probe_seq.get(rnd, 0):
+            continue
+        st = model.state_at(conn, s_)
+        if st is None:
+            continue
+        expected[rnd][(mt, st[2])] += 1
+    for rnd in set(expected) | set(observed):
+        e, o = expected.get(rnd, Counter()), observed.get(rnd, Counter())
+        if e:
+            res.probes["mgr_originated_notices_expected"] += sum(e.values())
+        if e == o:
+            continue
+        missing = e - o
+        extra = o - e
+        if missing:
+            (t, mid), n = next(iter(missing.items()))
+            res.add("C14", "missing_notice_manager_msg",
+                    f"round {rnd}: a manager-originated message of type {t} could not be handed to subscriber id {mid} "
+                    f"({n} time(s)) and no FAILED_MESSAGE naming it reached the logger monitor",
+                    sig="missing_notice_manager_msg")
+        elif extra:
+            (t, mid), n = next(iter(extra.items()))
+            res.add("C14", "unsound_notice_manager_msg",
+                    f"round {rnd}: {n} FAILED_MESSAGE notice(s) about a manager-originated message of type {t} name module "
+                    f"{mid}, which was not an undeliverable subscriber of it", sig="unsound_notice_manager_msg")
+
+
+PubSubRun.oracle_c14_manager_originated = _oracle_c14_manager_originated
 
 
 def run(choices, prop: str, overrides=None, forced=None) -> RunResult:
